@@ -15,6 +15,7 @@ TIER = os.environ.get("VERIF_TIER", "quick")
 SEED = int(os.environ.get("VERIF_SEED", "1"))
 REPLAY = os.environ.get("VERIF_REPLAY", "")
 NSH = min(16, os.cpu_count() or 4)
+KNOWN_GAS_SIG = "C06/diverged/gas-of-stateless-rejected-tx-in-first-block-after-restart"
 
 
 def run_shards(cmd_base, env, logprefix, wd):
@@ -36,8 +37,8 @@ def main():
     t0 = time.time()
     if REPLAY:
         ok = True
-        for il in ("0", "0.5"):
-            p = subprocess.run([BIN, "c06replay", "-file", REPLAY, "-interleave", il, "-seed", str(SEED)], env=dict(os.environ, GOGC="1", GOMAXPROCS="2"))
+        for il, rs in (("0", "0"), ("0.5", "0"), ("0.5", "0.3"), ("0", "1")):
+            p = subprocess.run([BIN, "c06replay", "-file", REPLAY, "-interleave", il, "-restart", rs, "-seed", str(SEED)], env=dict(os.environ, GOGC="1", GOMAXPROCS="2"))
             ok = ok and p.returncode == 0
         if not ok:
             print("VIOLATION property=C06 replay=%s" % os.path.abspath(REPLAY))
@@ -73,7 +74,7 @@ def main():
             print("NOTE: clock-shifted replay binary could not be built, process B runs with the normal clock: " + p.stdout[-300:])
     else:
         print("NOTE: time.Now overlay could not be prepared, process B runs with the normal clock: " + ov.stdout[-300:])
-    rcs = run_shards([binB, "c06replay", "-seed", str(SEED), "-n", str(n), "-dir", outdir, "-suffix", "B", "-interleave", "0.4"], envB, os.path.join(outdir, "replayB"), wd)
+    rcs = run_shards([binB, "c06replay", "-seed", str(SEED), "-n", str(n), "-dir", outdir, "-suffix", "B", "-interleave", "0.4", "-restart", "0.12"], envB, os.path.join(outdir, "replayB"), wd)
     if any(rcs):
         inconclusive.append("a replay-B worker exited with %s" % [r for r in rcs if r])
     suffixes = ["B"]
@@ -87,7 +88,7 @@ def main():
             inconclusive.append("race build failed: " + p.stdout[-400:])
         else:
             envC = dict(base_env, GOMAXPROCS="4", GORACE="halt_on_error=0 log_path=%s" % os.path.join(outdir, "race"))
-            rcs = run_shards([racebin, "c06replay", "-seed", str(SEED + 1000), "-n", str(n), "-dir", outdir, "-suffix", "C", "-interleave", "0.3"], envC, os.path.join(outdir, "replayC"), wd)
+            rcs = run_shards([racebin, "c06replay", "-seed", str(SEED + 1000), "-n", str(n), "-dir", outdir, "-suffix", "C", "-interleave", "0.3", "-restart", "0.05"], envC, os.path.join(outdir, "replayC"), wd)
             if any(rcs):
                 inconclusive.append("a replay-C (race) worker exited with %s" % [r for r in rcs if r])
             suffixes.append("C")
@@ -103,6 +104,15 @@ def main():
                         races["dependency"] += 1
 
     # compare
+    known = {}
+    try:
+        for kf in json.load(open(os.path.join(ROOT, "known_findings.json")))["findings"]:
+            if kf.get("property") == "C06" and kf.get("status") == "known":
+                known[kf["signature"]] = kf
+    except Exception as e:
+        print("NOTE: known_findings.json unreadable: %s" % e)
+    known_hits = {}
+    known_count = [0]
     evaluations = 0
     sigs = set()
     samples = []
@@ -134,6 +144,15 @@ def main():
                         continue
                     compared_steps += 1
                     got = out[i] if i < len(out) else {"op": "missing"}
+                    if (got.get("op") != "error" and got.get("d") != op.get("d") and op.get("d2") and got.get("d2") == op.get("d2")
+                            and got.get("cls") == "stateless-reject/first-block-after-restart"):
+                        # everything but GasUsed agrees, the transaction is rejected by ValidateBasic (never reaches the
+                        # ante handler) and the instance was started at the previous Commit: the listed finding. The
+                        # application state is not affected, so the comparison of this history goes on.
+                        known_hits.setdefault(KNOWN_GAS_SIG, (k, "history %d (source %s case %d) chain %d step %d tx h=%s: process A observed %s, restarted process %s observed %s" % (
+                            k, meta["source"], meta["src_case"], ci, i, op.get("h"), op.get("i", ""), sfx, got.get("i", "")), tf))
+                        known_count[0] += 1
+                        continue
                     if got.get("op") == "error" or got.get("d") != op.get("d"):
                         violations.append((k, "%s/%s" % (sfx, op["op"]), "history %d (source %s case %d) chain %d step %d %s h=%s: process A observed %s (%s), process %s observed %s (%s)" % (
                             k, meta["source"], meta["src_case"], ci, i, op["op"], op.get("h"), op.get("d"), op.get("i", ""), sfx, got.get("d"), got.get("i", "")), tf))
@@ -149,6 +168,9 @@ def main():
     first = {}
     for k, where, detail, tf in violations:
         first.setdefault(where, (k, detail, tf))
+    for sig, (k, detail, tf) in known_hits.items():
+        if sig not in known:
+            first.setdefault(sig.split("/", 2)[2], (k, detail, tf))
     for blk in races["canine"]:
         first.setdefault("race", (-1, "data race with an access frame inside canine-chain:\n" + blk, os.path.join(outdir, "race.*")))
     if len(nontriv) < 8 and not first:
@@ -160,7 +182,7 @@ def main():
             "evaluations": evaluations,
             "distinct_nontrivial": len(nontriv),
             "rule": "history = one generated workload (dedicated generator X06 maximising provers / gauges / access-map ids / form shuffles per block, plus the generators of every other property except C11 (its contract family calls the wasm plug-in boundary directly, outside ABCI) and C20 in record-only mode) recorded as genesis + headers + signed tx bytes; "
-                    "evaluation = one re-execution in an independent OS process (B: GOMAXPROCS=2, GOGC=1, wall clock shifted by +98 days through a time.Now overlay, serialised CheckTx/Recheck/Query/Simulate calls interleaved with probability 0.4 between consensus calls; thorough adds C: race-detector build) compared step by step with process A on AppHash, tx code/codespace/gas/data and the ordered event lists of BeginBlock/DeliverTx/EndBlock; "
+                    "evaluation = one re-execution in an independent OS process (B: GOMAXPROCS=2, GOGC=1, wall clock shifted by +98 days through a time.Now overlay, serialised CheckTx/Recheck/Query/Simulate calls interleaved with probability 0.4 between consensus calls, the recorded simulate-only transactions (feed update + purchase in one transaction, never delivered) executed, and with probability 0.12 per Commit the node restarted, i.e. a new application instance opened on the same database; thorough adds C: race-detector build) compared step by step with process A on AppHash, tx code/codespace/gas/data and the ordered event lists of BeginBlock/DeliverTx/EndBlock; "
                     "non-trivial = distinct (source, message-type set) histories that paid >=3 provers in one reward block or used >=6 message types",
             "samples": samples or [{"note": "none"}],
             "histories": n,
@@ -172,6 +194,8 @@ def main():
             "race_reports_in_canine_chain": len(races["canine"]),
             "nontrivial_signatures": nontriv[:100],
             "inconclusive": inconclusive,
+            "known_findings_reobserved": sorted(s for s in known_hits if s in known),
+            "known_finding_steps": known_count[0],
         },
         "assumptions": [
             "Tendermint 0.34's local ABCI client serialises all connections, so truly concurrent ABCI calls are not generated; the legitimate schedule dimension is the order of serialised calls plus process-level differences",
@@ -184,6 +208,9 @@ def main():
     json.dump(ev, open(os.path.join(ROOT, "evidence", "C06.json"), "w"), indent=1)
     print("C06 tier=%s seed=%d: %d histories, %d re-executions, %d steps compared, %d distinct non-trivial, races: %d (in canine-chain: %d), %.1fs" % (
         TIER, SEED, n, evaluations, compared_steps, len(nontriv), races["total"], len(races["canine"]), wall))
+    for sig, (k, detail, tf) in sorted(known_hits.items()):
+        if sig in known:
+            print("KNOWN-FINDING: property=C06 %s %s" % (sig, known[sig].get("what", detail)[:300]))
     for where, (k, detail, tf) in sorted(first.items()):
         print("  finding C06/diverged/%s: %s" % (where, detail[:800]))
         print("VIOLATION property=C06 replay=%s" % tf)
